@@ -57,6 +57,7 @@ class PathEnv:
         self.A, self.fn = A, fn
         self.cls = cls if cls is not None else fn.cls
         self.roots = dict(roots)   # local name -> path tuple
+        self.defaulted = set()     # paths read through .get(key, default) with a default other than None
 
     def path_of(self, e, depth=0):
         if depth > 8:
@@ -86,6 +87,8 @@ class PathEnv:
             base = self.path_of(e.func.value, depth + 1)
             ok, k = try_fold(self.A.P, e.args[0], self.fn, self.cls)
             if base is not None and ok and isinstance(k, str):
+                if len(e.args) > 1 and not (isinstance(e.args[1], ast.Constant) and e.args[1].value is None):
+                    self.defaulted.add(base + (k,))
                 return base + (k,)
         return None
 
@@ -209,7 +212,13 @@ class AtomExtractor:
                     t = None
                 if p is not None and isinstance(r, ast.Name):
                     tn = _TYPES.get(r.id, "$" + r.id if r.id in fn.params else r.id)
-                    return [Atom("type" if op == "==" else "nottype", p, (tn,))]
+                    out = [Atom("type" if op == "==" else "nottype", p, (tn,))]
+                    # the value read at a key has a type other than NoneType only when the key is there: d[k] raises otherwise,
+                    # d.get(k) (no default) gives None
+                    if op == "==" and r.id in _TYPES and r.id != "NoneType" and len(p) >= 1 and not p[-1].startswith("$") and p[-1] != "*" \
+                            and p not in env.defaulted and (len(p) > 1 or not p[0].startswith("$")):
+                        out.append(Atom("present", p))
+                    return out
                 return None
             # len(E) op c   /  len(E) op len(F)
             if isinstance(l, ast.Call) and call_name(l) == "len" and l.args:
